@@ -69,7 +69,7 @@ pub fn load_bytes(bytes: &[u8]) -> Option<&[u8]> {
   }
 
   let len: u32 = load_u32(&bytes[..4])?;
-  if bytes.len() < (4 + len) as usize {
+  if bytes.len() - 4 < len as usize {
     return None;
   }
 
